@@ -9,7 +9,7 @@ from fractions import Fraction
 PKG = "network/dag"
 HARNESS = ["network/dag/zz_verif_c06_test.go"]
 
-REQUIRED = ["parse_sound", "lc_exact", "lc_exact_fails_without_guard", "admitted_sound", "admitted_prevs_clock",
+REQUIRED = ["parse_sound", "last_member_decides", "lc_exact", "lc_exact_fails_without_guard", "admitted_sound", "admitted_prevs_clock",
             "admitted_signature", "add_idempotent", "rejected_no_trace", "dag_inv", "concurrent_adds_serialise",
             "concurrent_adds_keep_invariant", "created_tx_admissible", "notified_exactly_once",
             "fact_allowed_algos", "fact_allowed_versions", "fact_header_names", "fact_parse_steps",
